@@ -141,6 +141,14 @@ func (monC18) PostCall(s *Sim, c *Call) {
 
 // A setting whose conflict check could not be made (the node list failed) must not come out valid.
 func (monC18) TaskEnd(s *Sim, t *Task) {
+	if t.Ctrl == CtrlERS && t.Clean() && t.Err != nil {
+		// "only valid settings influence pods": a setting that is in error (its selector cannot be used)
+		// must not make the replica-set sync fail either
+		msg := t.Err.Error()
+		if strings.Contains(msg, "label selector operator") || strings.Contains(msg, "values set can't be empty") || strings.Contains(msg, "operators, values set") {
+			s.Violate("C18", "applied", "error-setting-breaks-sync", "%s failed on the selector of a setting that is not valid: %v", t.Label(), t.Err)
+		}
+	}
 	if t.Ctrl != CtrlSetting || t.Crashed {
 		return
 	}
